@@ -36,6 +36,11 @@ pub struct GoSpec {
     pub searchmoves: Vec<String>,
     /// for searches without a finite limit: send `stop` this many milliseconds after `go`
     pub stop_after_ms: Option<u64>,
+    /// `go ponder ...`; the GUI sends `ponderhit` this many milliseconds after `go` (before any stop)
+    #[serde(default)]
+    pub ponder: bool,
+    #[serde(default)]
+    pub ponderhit_after_ms: Option<u64>,
 }
 
 impl GoSpec {
@@ -50,7 +55,7 @@ impl GoSpec {
     pub fn to_go(&self) -> Go {
         Go {
             search_moves: self.searchmoves.iter().filter_map(|m| UciMove::from_str(m).ok()).collect(),
-            ponder: false,
+            ponder: self.ponder,
             white_time: self.wtime.map(Duration::from_millis),
             black_time: self.btime.map(Duration::from_millis),
             white_increment: self.winc.map(Duration::from_millis),
@@ -65,7 +70,7 @@ impl GoSpec {
     }
 
     pub fn to_line(&self) -> String {
-        let mut s = String::from("go");
+        let mut s = String::from(if self.ponder { "go ponder" } else { "go" });
         let mut add = |k: &str, v: Option<u64>| {
             if let Some(v) = v {
                 s.push_str(&format!(" {k} {v}"));
@@ -198,6 +203,10 @@ impl Session {
     /// run one search to its bestmove, sending `stop` when the spec asks for it
     pub fn search(&mut self, spec: &GoSpec) -> Wait {
         self.go(spec);
+        if let Some(ms) = spec.ponderhit_after_ms {
+            std::thread::sleep(Duration::from_millis(ms));
+            self.send(UciCommand::PonderHit);
+        }
         if let Some(ms) = spec.stop_after_ms {
             std::thread::sleep(Duration::from_millis(ms));
             self.stop();
